@@ -3390,6 +3390,9 @@ class FlowIR(object):
 
         if filename is None:
             retval = "%s:%s" % (producer, method)
+        elif producer.endswith('/'):
+            # VV: the producer is the root directory ("/tmp:link" parses to producer "/" and file "tmp")
+            retval = "%s%s:%s" % (producer, filename, method)
         else:
             retval = "%s/%s:%s" % (producer, filename, method)
 
